@@ -1,4 +1,5 @@
 #!/bin/bash
-# Re-confirm every seeded change under /verif/seeded and re-run its property's quick check against it (3 at a time).
+# Re-confirm every seeded change under /verif/seeded and re-run its property's quick check against it.
+# One private copy of /verif per property (see run_seeded.py), 4 properties at a time, seeds of one property in sequence.
 cd "$(dirname "$0")/.."
-ls seeded | sort | xargs -P 3 -I{} bash -c 'id={}; p=${id%%_*}; /venv/bin/python harness/run_seeded.py $p seeded/$id $id 2>&1 | grep -E "DETECTED|MISSED" | sed "s/^/$id /" | cut -c1-220'
+ls seeded | sed 's/_.*//' | sort -u | xargs -P 4 -I{} bash -c 'p={}; for id in $(ls seeded | grep "^${p}_" | sort); do /venv/bin/python harness/run_seeded.py $p seeded/$id $id 2>&1 | grep -E "DETECTED|MISSED" | sed "s/^/$id /" | cut -c1-200; done'
